@@ -178,21 +178,33 @@ func VH_C06_packed() {
 
 // SMPP entry point, ASCII coding.
 func VH_C06_smpp_ascii() {
-	T := vParam("T")
+	T, c := vParam("T"), vParam("c")
 	txt := vBytes("t", T)
+	key := vU8("key")
+	per, single := 134, 140
+	req := datacoding.SMPP_CODING_ASCII
+	text := ""
+	switch c {
+	case 3: // Latin-1 (Windows-1252): the ASCII range is coded as itself
+		req = datacoding.SMPP_CODING_Latin1
+	}
 	for i := 0; i < T; i++ {
 		vAssume(txt[i] < 0x80)
 	}
-	key := vU8("key")
-	parts, coding, err := EncodeSMPPContentAndSplit(context.Background(), string(txt), datacoding.SMPP_CODING_ASCII, key)
+	text = string(txt)
+	parts, coding, err := EncodeSMPPContentAndSplit(context.Background(), text, req, key)
 	vObserve("nparts", len(parts))
 	vObserveErr("err", err)
+	if T == 0 {
+		vReach("end")
+		return
+	}
 	vAssert("C06.smpp-ascii.no-error", err == nil)
-	vAssert("C06.smpp-ascii.coding-kept", coding == datacoding.SMPP_CODING_ASCII)
-	if T <= 140 {
+	vAssert("C06.smpp-ascii.coding-kept", coding == req)
+	if T <= single {
 		vAssert("C06.smpp-ascii.single", vAnd(len(parts) == 1, vEqBytes(parts[0], txt)))
 	} else {
-		checkParts("C06.smpp-ascii", parts, txt, 134, key)
+		checkParts("C06.smpp-ascii", parts, txt, per, key)
 	}
 	vReach("end")
 }
@@ -214,9 +226,13 @@ func VH_C06_ucs2() {
 		parts, coding, err = EncodeSMPPContentAndSplit(context.Background(), string(txt), datacoding.SMPP_CODING_UCS2, key)
 		vAssert("C06.ucs2.coding-kept", coding == datacoding.SMPP_CODING_UCS2)
 	} else {
+		req := datacoding.CMPP_CODING_UCS2
+		if smpp == 2 { // the second CMPP number for UCS-2
+			req = datacoding.CMPP_CODING_UCS2_NO_SIGN
+		}
 		var coding datacoding.CMPPDataCoding
-		parts, coding, err = EncodeCMPPContentAndSplit(context.Background(), string(txt), datacoding.CMPP_CODING_UCS2, key)
-		vAssert("C06.ucs2.coding-kept", coding == datacoding.CMPP_CODING_UCS2)
+		parts, coding, err = EncodeCMPPContentAndSplit(context.Background(), string(txt), req, key)
+		vAssert("C06.ucs2.coding-kept", coding == req)
 	}
 	vObserve("nparts", len(parts))
 	vAssert("C06.ucs2.no-error", err == nil)
